@@ -1,4 +1,6 @@
 import WacProofs.Lemmas.Discover
+import WacProofs.Lemmas.Superset04
+import WacProofs.Lemmas.Stmt04
 /-
   C17 — package discovery finds every package resolution will ask for.
   `discover` models `wac_resolver::packages` (visitor.rs + the callback in lib.rs);
@@ -91,6 +93,46 @@ theorem covers_model (d : Document) (ks req : List Key) (h : discover d = .ok ks
   unfold Spec.covers
   simp only [Bool.and_eq_true, List.all_eq_true, List.contains_iff_mem, bne_iff_ne, ne_eq]
   exact ⟨fun k hk => requests_subset_discover d ks h k (hreq k hk), fun k hk => self_never_discovered d ks h k hk⟩
+
+/-! ### "the same result as any superset" — proved for the statement sublanguage of C04
+
+  FULL STATEMENT (not proved): for every document `d` and package tables `t ⊇ t'` with
+  `discover d = .ok ks` and `t'` = `t` restricted to `ks`, `Document::resolve d t = Document::resolve d t'`.
+  There is no Lean model of the whole resolver over the full AST; the harness decides this clause
+  on every generated document.  What *is* proved is the same statement for the sublanguage whose
+  resolver model is proved equal to the reference evaluator (C04): -/
+
+/-- the packages of a library whose key is among `ks` -/
+def restrict (lib : Wac.Lang.Lib) (ks : List (Wac.Lang.Str × Option Wac.Lang.Str)) : Wac.Lang.Lib :=
+  lib.filter fun q => ks.any fun k => Wac.Lemmas.C04.keyIs k.1 k.2 q
+
+/-- Libraries that agree on the package keys a program mentions (in `new` expressions and
+    package-path imports) resolve identically — in particular a library and any superset of it. -/
+theorem superset_irrelevant_sublanguage_partial (p : Wac.Lang.Program) (lib lib' : Wac.Lang.Lib)
+    (hwf : lib.wf = true) (hwf' : lib'.wf = true)
+    (h : Wac.Lemmas.C04.AgreeOn lib lib' (Wac.Lemmas.C04.progReqs p)) :
+    Wac.Lang.Model.resolveModel p lib = Wac.Lang.Model.resolveModel p lib' := by
+  rw [Wac.Lemmas.C04.resolveModel_eq_eval p lib (fun q hq => by
+        have := (List.all_eq_true.mp hwf) q hq; simpa using this),
+      Wac.Lemmas.C04.resolveModel_eq_eval p lib' (fun q hq => by
+        have := (List.all_eq_true.mp hwf') q hq; simpa using this)]
+  exact Wac.Lemmas.C04.eval_agree p lib lib' h
+
+/-- Supplying exactly the packages the program mentions gives the same result as supplying all. -/
+theorem exactly_mentioned_suffices_sublanguage_partial (p : Wac.Lang.Program) (lib : Wac.Lang.Lib) (hwf : lib.wf = true) :
+    Wac.Lang.Model.resolveModel p lib = Wac.Lang.Model.resolveModel p (restrict lib (Wac.Lemmas.C04.progReqs p)) := by
+  apply superset_irrelevant_sublanguage_partial p lib _ hwf
+  · unfold Wac.Lang.Lib.wf restrict at *
+    rw [List.all_eq_true] at hwf ⊢
+    intro q hq
+    exact hwf q (List.mem_filter.mp hq).1
+  · intro k hk
+    unfold restrict
+    rw [Wac.Lemmas.C04.lib_find_eq, Wac.Lemmas.C04.lib_find_eq]
+    symm
+    apply Wac.Lemmas.C04.find_filter_keep
+    intro q hq
+    exact List.any_eq_true.mpr ⟨k, hk, hq⟩
 
 section examples
 def pkgName (n : String) : PackageName := { string := n.toList, name := n.toList, version := none, span := default }
